@@ -9,6 +9,8 @@ import SynthVerif.Props.C08
   (one tenth of a semitone on each side of the semitone bucket of note `p`).
 * `ramp_monotone`: for a fixed scale, a non-decreasing sequence of inputs in [0, 10] V yields a non-decreasing
   sequence of notes (every cached note is the history-free note of an earlier, smaller-or-equal input; C08).
+* `C09Noise.lean`, `noise_stable`: inputs inside the hysteresis band around a chromatic boundary never change the note
+  after the first conversion ("noise … causes at most one note change").
 -/
 namespace C09
 open F32 Quantizer
